@@ -4,6 +4,11 @@ import json, os
 HERE = os.path.dirname(os.path.dirname(os.path.abspath(__file__)))
 
 CHECKS = {
+ 'C10': dict(
+   category='model_checking',
+   text="Topo.tla: a topology denotes a set of cells over the atoms of the dyadic grid of maximal depth L (unit boxes; half squares for simplex / mixed meshes) with one action per public topology operation (refined, refine_spaces, refined_by, refined_by & refined_by, take, subset, -, |, slicing, trim by half spaces and by max/min of two half spaces, complement) and a structure tag mirroring which nutils class results; TLC checks Disjoint, WithinHull, BoundaryClosed (sum of normals zero, flux of x = dim x volume), InterfacesOnce, FacetPartition, CutShared and the action property StepConserves exhaustively over every denotation reachable within MaxOps operations on small bases and by simulation for deeper histories (spec mutants child-drop, trim-overlap, nb-skew must violate). Behaviours chosen by TLC with the model's predicted observation of every state (element keys, measures, moments, boundary facet atoms with normals, interior facet atoms with their two cells, complement and cut after a trim) are replayed step by step on real nutils topologies (rectilinear incl. periodic, products, multipatch, triangle / mixed) and compared after every step (S->C, TopoEval.tla).",
+   note="Level sets are half spaces on the dyadic grid so trimming is exact; 1-D and 2-D meshes, identity geometry; operations the implementation refuses (NotImplementedError / unsupported operand / missing attribute) are counted, not judged; the label under which a boundary facet is filed after repeated trims is not judged; replay coverage (never the verdict) depends on a wall-clock budget.",
+   technique="TLA+ cell-complex model of topology operations checked by TLC; TLC-chosen operation histories with predicted observations replayed on real topologies"),
  'C08': dict(
    category='model_checking',
    text="Geometry.tla is an exact-rational TLA+ machine that builds a mesh (rectilinear / simplex / product, refined or not), a polynomial geometry map and a polynomial field and lowers the operators the way nutils does (root derivative, inverse / Gram pseudo inverse, normal as the orthonormalised exterior vector of the pushed edge, Gram determinant, exact quadrature); TLC checks the defining identities as invariants (gradient of p(X) is p'(X), surface gradient is the tangential projection, normals unit / orthogonal / outward / opposite on interfaces, divergence theorem per element and per mesh, refinement preserves integrals; spec mutants must violate). Every evaluation state of the model is replayed on real nutils meshes and function objects: grad, div, curl, laplace, symgrad, surfgrad, J, normal, exterior normal, per-space gradients and the integrals of the divergence theorem are compared point by point with the state the model predicts (S->C); the edge transforms of every reference element and the transform chains of all boundary / interface elements of the real topologies are exported and TLC decides that the tangent columns span the facet and that ext points out of the element (T).",
